@@ -2,14 +2,15 @@
 # setup_cmd: builds the whole framework offline from files on disk.
 set -e
 cd "$(dirname "$0")"
+REPO="${VERIF_REPO:-/repo}"
 export GOFLAGS=-mod=mod GOPROXY=off GOSUMDB=off GOTOOLCHAIN=local CGO_ENABLED=0
 mkdir -p bin work evidence replays
 python3 lib/gen.py
 (cd tools/goconsts && go build -o ../../bin/goconsts .)
-./bin/goconsts /repo tools/goconsts/funcs.txt > coq/gen/Consts.v.new && mv coq/gen/Consts.v.new coq/gen/Consts.v
+./bin/goconsts "$REPO" tools/goconsts/funcs.txt > coq/gen/Consts.v.new && mv coq/gen/Consts.v.new coq/gen/Consts.v
 (cd coq && coq_makefile -f _CoqProject -o Makefile && timeout 7200 make -j16)
 (cd ocaml && ./build.sh)
-cp /repo/go.sum harness/go.sum
-printf 'module verifharness\n\ngo 1.13\n\nrequire github.com/dtn7/dtn7-go v0.0.0\n\nreplace github.com/dtn7/dtn7-go => /repo\n' > harness/go.mod
+cp "$REPO/go.sum" harness/go.sum
+printf 'module verifharness\n\ngo 1.13\n\nrequire github.com/dtn7/dtn7-go v0.0.0\n\nreplace github.com/dtn7/dtn7-go => %s\n' "$REPO" > harness/go.mod
 (cd harness && go build -tags verif -o ../bin/verifharness .)
 echo setup ok
